@@ -460,6 +460,7 @@ def check(src, rep):
     # ---- the P1 decoder: partial built-ins and explicit raises, by AST census with the handler
     _p1_escapes(rep, M, src, sink_for("P1", "dlde"))
     n_sites += _p1_partial_ops(rep, M, sink_for("P1", "dlde"))
+    rep.count("p1_readout_samples", _p1_readout_samples(rep, M, sink_for("P1", "dlde")))
     if n_esc == 0:
         rep.ok("R1", f"{len(table)} table decoders", f"{n_sites} lambda sites / normaliser paths analysed: every exception class that can leave a decoder ({sorted(caught_memo)}) is caught by both decode methods (oracle decoders raising each class, E-ABS)")
     rep.count("analysed_sites", n_sites)
@@ -554,6 +555,35 @@ def _p1_escapes(rep, M, src, sink):
             # regex match on a possibly-None address etc. is type safety (not decided)
             if isinstance(n, ast.Assert) and not caught(n, "AssertionError"):
                 sink(Escape("AssertionError", f"{q.split('.', 1)[1]}:assert", n.lineno, "assert on wire-derived data"))
+
+
+def _p1_readout_samples(rep, M, sink):
+    """concrete readouts built directly from bytes (well-formed data block; identification line well-formed, mutated, truncated, non-ASCII) through
+    decode_p1_readout, interpreted (E-ABS): an exception class that leaves it goes to the sink (which knows what AutoDecoder.decode_message catches).
+    Samples outside the interpreted subset are skipped - this rule only adds witnesses, the census rules above decide."""
+    from sa.abseval import AbsEval, AbsRaise
+    fn = M.funcs.get("dlde.decode_p1_readout")
+    if fn is None or ("dlde", "DataReadout") not in M.classes:
+        return 0
+    n = 0
+    data = b"1-0:1.8.0(000123.456*kWh)\r\n0-0:1.0.0(210222161900W)\r\n1-0:32.7.0(230.1*V)\r\n"
+    for ident in (b"/KAM5", b"/LGF5E360", b"/kAM5", b"/KAM", b"/", b"/K\xc5M5", b"/KAM5" + b"x" * 40, b"/ KAM5"):
+        for data_ in (data, b""):
+            raw = ident + b"\r\n\r\n" + data_ + b"!\r\n"
+            A = AbsEval(M)
+            try:
+                obj = A.instantiate(("dlde", "DataReadout"), [raw])
+                r = A.apply(fn, [obj])
+            except AbsRaise as ex:
+                r = ("raise", ex.cls)
+            except Exception:  # noqa
+                continue
+            if r[0] == "raise":
+                n += 1
+                sink(Escape(str(r[1]).split("(")[0], "decode_p1_readout:sample", fn.node.lineno, f"decoding the directly built readout {raw[:24]!r}... raises {r[1]}"))
+            elif r[0] == "value":
+                n += 1
+    return n
 
 
 def _p1_partial_ops(rep, M, sink):
